@@ -655,9 +655,7 @@ func (g *gen) genForm(outer []*mport) {
 			continue
 		}
 		selfDup := strings.HasPrefix(srcText, "&") && (srcText == "&"+strconv.Itoa(dst) || dst <= 2 && srcText == "&"+[]string{"stdin", "stdout", "stderr"}[dst])
-		if _, own := owned[dst]; own && selfDup {
-			g.quirk["self-dup-of-own-file"] = true
-		}
+		_ = selfDup // a self-duplication is a no-op (repaired in /repo); it gets no class tag, so a regression is an unlisted violation
 		pendingRelease = dst
 		ok, note := apply()
 		if note == "SKIPDIR" {
